@@ -461,10 +461,37 @@ trait Prim: Copy + PartialEq + fmt::Debug + Serialize + DeserializeOwned + Stimu
     fn random(r: &mut Sm64) -> Self;
     /// distance in units in the last place (integers: absolute difference), capped at 1e6
     fn ulp(a: Self, b: Self) -> i64;
+    /// the field `c` of a holder struct read through palette's optional-alpha helpers, with the transparency type written
+    /// out concretely (so that a rephrased where-clause of the helper is checked against the real type, not a generic one)
+    fn de_hold_alpha<'de, C: Deserialize<'de>, D: Deserializer<'de>>(d: D) -> Result<Alpha<C, Self>, D::Error>;
+    fn de_hold_pre<'de, C: Premultiply<Scalar = Self> + Deserialize<'de>, D: Deserializer<'de>>(d: D) -> Result<PreAlpha<C>, D::Error>;
+}
+macro_rules! hold_opt {
+    ($p:ty, $prebound:literal) => {
+        fn de_hold_alpha<'de, C: Deserialize<'de>, D: Deserializer<'de>>(d: D) -> Result<Alpha<C, $p>, D::Error> {
+            #[derive(Deserialize)]
+            #[serde(bound = "C: Deserialize<'de>")]
+            struct H<C> {
+                #[serde(deserialize_with = "palette::serde::deserialize_with_optional_alpha")]
+                c: Alpha<C, $p>,
+            }
+            H::<C>::deserialize(d).map(|h| h.c)
+        }
+        fn de_hold_pre<'de, C: Premultiply<Scalar = $p> + Deserialize<'de>, D: Deserializer<'de>>(d: D) -> Result<PreAlpha<C>, D::Error> {
+            #[derive(Deserialize)]
+            #[serde(bound = $prebound)]
+            struct H<C: Premultiply<Scalar = $p>> {
+                #[serde(deserialize_with = "palette::serde::deserialize_with_optional_pre_alpha")]
+                c: PreAlpha<C>,
+            }
+            H::<C>::deserialize(d).map(|h| h.c)
+        }
+    };
 }
 fn cap(d: i128) -> i64 { d.abs().min(1_000_000) as i64 }
 impl Prim for f32 {
     const NAME: &'static str = "f32";
+    hold_opt!(f32, "C: Premultiply<Scalar = f32> + Deserialize<'de>");
     fn hex(self) -> String { format!("{:08x}", self.to_bits()) }
     fn from_hex(h: &str) -> f32 { f32::from_bits(u32::from_str_radix(h, 16).expect("hex")) }
     fn extremes() -> Vec<f32> {
@@ -486,6 +513,7 @@ impl Prim for f32 {
 }
 impl Prim for f64 {
     const NAME: &'static str = "f64";
+    hold_opt!(f64, "C: Premultiply<Scalar = f64> + Deserialize<'de>");
     fn hex(self) -> String { format!("{:016x}", self.to_bits()) }
     fn from_hex(h: &str) -> f64 { f64::from_bits(u64::from_str_radix(h, 16).expect("hex")) }
     fn extremes() -> Vec<f64> {
@@ -508,6 +536,7 @@ impl Prim for f64 {
 }
 impl Prim for u8 {
     const NAME: &'static str = "u8";
+    hold_opt!(u8, "C: Premultiply<Scalar = u8> + Deserialize<'de>");
     fn hex(self) -> String { format!("{:02x}", self) }
     fn from_hex(h: &str) -> u8 { u8::from_str_radix(h, 16).expect("hex") }
     fn extremes() -> Vec<u8> { vec![0, 255, 1, 128, 127, 254] }
@@ -516,6 +545,7 @@ impl Prim for u8 {
 }
 impl Prim for u16 {
     const NAME: &'static str = "u16";
+    hold_opt!(u16, "C: Premultiply<Scalar = u16> + Deserialize<'de>");
     fn hex(self) -> String { format!("{:04x}", self) }
     fn from_hex(h: &str) -> u16 { u16::from_str_radix(h, 16).expect("hex") }
     fn extremes() -> Vec<u16> { vec![0, 65535, 1, 32768, 255, 256] }
@@ -614,19 +644,6 @@ col!("M4h", M4h<T>, { c1, hue, c3, c4 } meta { });
 
 #[derive(Serialize)]
 struct Hold<V> { c: V }
-#[derive(Deserialize)]
-#[serde(bound = "C: Deserialize<'de>, P: Deserialize<'de> + Stimulus")]
-struct HoldOptA<C, P> {
-    #[serde(deserialize_with = "palette::serde::deserialize_with_optional_alpha")]
-    c: Alpha<C, P>,
-}
-#[derive(Deserialize)]
-#[serde(bound = "C: Premultiply + Deserialize<'de>, C::Scalar: Deserialize<'de> + Stimulus")]
-struct HoldOptP<C: Premultiply> {
-    #[serde(deserialize_with = "palette::serde::deserialize_with_optional_pre_alpha")]
-    c: PreAlpha<C>,
-}
-
 trait Wrap<C: Col> {
     const NAME: &'static str;
     type V: Serialize + DeserializeOwned;
@@ -650,14 +667,14 @@ impl<C: Col> Wrap<C> for WAlpha {
     type V = Alpha<C, C::P>;
     fn build(c: C, a: C::P) -> Self::V { Alpha { color: c, alpha: a } }
     fn split(v: &Self::V) -> (Vec<C::P>, Option<C::P>) { (v.color.comps(), Some(v.alpha)) }
-    fn de_hold<'de, D: Deserializer<'de>>(d: D) -> Option<Result<Self::V, D::Error>> { Some(HoldOptA::<C, C::P>::deserialize(d).map(|h| h.c)) }
+    fn de_hold<'de, D: Deserializer<'de>>(d: D) -> Option<Result<Self::V, D::Error>> { Some(<C::P as Prim>::de_hold_alpha::<C, D>(d)) }
 }
 impl<C: Col + Premultiply<Scalar = <C as Col>::P>> Wrap<C> for WPre {
     const NAME: &'static str = "prealpha";
     type V = PreAlpha<C>;
     fn build(c: C, a: C::P) -> Self::V { PreAlpha { color: c, alpha: a } }
     fn split(v: &Self::V) -> (Vec<C::P>, Option<C::P>) { (v.color.comps(), Some(v.alpha)) }
-    fn de_hold<'de, D: Deserializer<'de>>(d: D) -> Option<Result<Self::V, D::Error>> { Some(HoldOptP::<C>::deserialize(d).map(|h| h.c)) }
+    fn de_hold<'de, D: Deserializer<'de>>(d: D) -> Option<Result<Self::V, D::Error>> { Some(<C::P as Prim>::de_hold_pre::<C, D>(d)) }
 }
 
 // ------------------------------------------------------------------------------------------------ text from trees, JSON observations
